@@ -8,11 +8,14 @@ import pipeline
 import talgen
 
 PID = 'C05'
-PROOF_MODULES = ['ChamProofs.Props.C05', 'ChamProofs.Props.C05Eval']
+PROOF_MODULES = ['ChamProofs.Props.C05', 'ChamProofs.Props.C05Eval', 'ChamProofs.Props.C05Global', 'ChamProofs.Props.C05Multi']
 THEOREMS = ['ChamVerif.C05_bracket_restores', 'ChamVerif.C05_bracket_frame', 'ChamVerif.ScopeStore.C05_copy_sees_same',
             'ChamVerif.ScopeStore.C05_copy_local_private', 'ChamVerif.ScopeStore.C05_global_through_copy',
             'ChamVerif.Dict.get_set_same', 'ChamVerif.Dict.get_set_other', 'ChamVerif.Root.rk_all', 'ChamVerif.C05_local_define_restores',
-            'ChamVerif.C05_repeat_restores']
+            'ChamVerif.C05_repeat_restores',
+            'ChamVerif.C05_global_unpack',
+            'ChamVerif.storeGlobals_tie',
+            'ChamVerif.C05_local_defines_restore', 'ChamVerif.C05_repeat_restores_all', 'ChamVerif.C05_tuple_define_runs']
 LEVEL_TEXT = ('Proved in Lean on the whole interpreter model: when an element with a local tal:define of a name is finished, the name is bound to '
               'exactly what it was bound to before — the outer binding visible again unchanged, or undefined again — for every body (macro '
               'calls, repeats, on-error, global definitions of the same name included), scope, state and fuel (C05_local_define_restores, '
@@ -24,9 +27,10 @@ LEVEL_TEXT = ('Proved in Lean on the whole interpreter model: when an element wi
               'original\'s bindings, its local assignments never reach the original, and a set_global through it is what the original '
               'reads (C05_copy_sees_same, C05_copy_local_private, C05_global_through_copy). The Scope model is tied to utils.Scope by '
               'operation-sequence correspondence; the node interpreter (define/repeat/on-error scoping) by end-to-end correspondence with '
-              'scope probes and colliding names; the property itself is judged on the implementation by a constructive reference.')
-LEVEL_NOTE = ('Trusted: Lean kernel; harness. The interpreter theorem covers tal:define (single name); the local tal:repeat variable and tuple '
-              'definitions are covered by correspondence and the constructive oracle only. Known findings D-05b (local restore hides a global set inside), D-05c (an exception handled by '
+              'scope probes and colliding names; the property itself is judged on the implementation by a constructive reference.'
+              ' A global definition of several names leaves every name bound to its own item in the render context (C05_global_unpack with storeGlobals_tie; the behaviour of /repo after the D-05g fix).'
+              ' Any list of local clauses — single names, tuples, aliases, a name defined more than once — leaves every name it defined as it was before the element, and so does a tuple of loop variables (C05_local_defines_restore, C05_repeat_restores_all over restore_get: the last backup entry of a name decides, and it is the binding the element started with; C05_tuple_define_runs: the hypotheses are met).')
+LEVEL_NOTE = ('Trusted: Lean kernel; harness. The interpreter theorems cover local tal:define lists (single names, tuples, aliases, repeated names) and local tal:repeat variables (single or tuple); global definitions are covered by C05_global_unpack, the correspondence and the constructive oracle. Known findings D-05b (local restore hides a global set inside), D-05c (an exception handled by '
               'tal:on-error skips the restore), D-05d (translate/decode/on_error_handler cannot be shadowed), D-05e (repeat rebound).')
 RULE = ('(a) random operation sequences (length <= 12 quick / 40 thorough) on utils.Scope vs the model store; (b) talgen templates with names '
         'drawn from a pool that includes builtins and helper names, with scope probes; (c) constructive nestings define > repeat > define '
